@@ -1,5 +1,6 @@
 import CorsVerif.Proofs.Accepted
 import CorsVerif.Proofs.C06Assembly
+import CorsVerif.Proofs.OriginsStable
 /-
   C06 — Config() round-trips: Reconfigure(Config()) is a no-op and constructors agree.
 
@@ -254,6 +255,86 @@ theorem C06_roundtrip (ext : Ext) (hext : ∀ h info, ext.ip6 h = some info → 
       rw [f_aceh]
     · rw [newConfig_status, newConfig_status, f_st]
 
+theorem Config.ext' (a b : Config) (h1 : a.origins = b.origins) (h2 : a.credentialed = b.credentialed)
+    (h3 : a.methods = b.methods) (h4 : a.requestHeaders = b.requestHeaders) (h5 : a.maxAge = b.maxAge)
+    (h6 : a.responseHeaders = b.responseHeaders) (h7 : a.status = b.status) (h8 : a.pna = b.pna)
+    (h9 : a.pnaNoCors = b.pnaNoCors) (h10 : a.tolInsecure = b.tolInsecure) (h11 : a.tolPSL = b.tolPSL) : a = b := by
+  cases a; cases b
+  simp only [] at h1 h2 h3 h4 h5 h6 h7 h8 h9 h10 h11
+  subst h1 h2 h3 h4 h5 h6 h7 h8 h9 h10 h11
+  rfl
+
+open Validate CfgRT TreeRT C06A in
+/-- **C06 (last sentence: after one round trip `Config()` no longer changes).** For every accepted
+configuration (brackets only around hosts containing a colon): the `Config` that `Config()` returns is
+accepted; the `Config()` of *that* middleware is accepted as well, and from then on the value is a
+fixed point — literally equal in every field, `Origins` included, whatever redundant or mutually
+subsuming patterns the original listed and in whatever order. -/
+theorem C06_stable (ext : Ext) (hext : ∀ h info, ext.ip6 h = some info → h.head? ≠ some 42)
+    (cfg : Config) (icfg : ICfg) (acc : newInternalConfig ext cfg = .ok icfg)
+    (hbr : ∀ raw ∈ cfg.origins, ∀ p, Pat.parsePattern ext raw = .ok p → (91 : Nat) ∈ raw → (58 : Nat) ∈ p.value) :
+    ∃ icfg' icfg'', newInternalConfig ext (newConfig icfg) = .ok icfg' ∧
+      newInternalConfig ext (newConfig icfg') = .ok icfg'' ∧
+      newConfig icfg'' = newConfig icfg' := by
+  -- the Origins field of the input is acceptable
+  obtain ⟨herrs, hb⟩ := (accepted_iff ext cfg icfg).mp acc
+  obtain ⟨_, _, h2, _, _, _, _⟩ := allErrs_nil herrs
+  have hne : cfg.origins ≠ [] := by
+    intro h
+    unfold Validate.originErrs at h2
+    simp [h, Validate.originsResult, Validate.origins] at h2
+  have hclean : cfg.origins.flatMap (rawErrs ext cfg.credentialed (Validate.pnaAny cfg) cfg.tolInsecure cfg.tolPSL) = [] := by
+    unfold Validate.originErrs at h2
+    have he : cfg.origins.isEmpty = false := by
+      cases hc : cfg.origins with
+      | nil => exact absurd hc hne
+      | cons _ _ => rfl
+    rw [he] at h2
+    have := fieldErr_nil (by simpa using h2)
+    unfold Validate.originsResult at this
+    rw [origins_eq _ _ _ _ _ _ hne] at this
+    exact this
+  have hA : Acceptable ext cfg.credentialed (Validate.pnaAny cfg) cfg.tolInsecure cfg.tolPSL cfg.origins :=
+    ⟨hne, nil_of_flatMap_nil hclean, hbr⟩
+  have hA1 := originsOf_acceptable ext hext _ _ _ _ _ hA
+  -- first round trip
+  obtain ⟨icfg', acc', _, _⟩ := C06_roundtrip ext hext cfg icfg acc hbr
+  obtain ⟨_, hb'⟩ := (accepted_iff ext _ icfg').mp acc'
+  subst hb
+  have ho1 : (newConfig (Validate.build ext cfg)).origins =
+      originsOf ext cfg.credentialed (Validate.pnaAny cfg) cfg.tolInsecure cfg.tolPSL cfg.origins := rfl
+  -- second round trip
+  have hbr1 : ∀ raw ∈ (newConfig (Validate.build ext cfg)).origins, ∀ p, Pat.parsePattern ext raw = .ok p →
+      (91 : Nat) ∈ raw → (58 : Nat) ∈ p.value := by
+    rw [ho1]; exact hA1.br
+  obtain ⟨icfg'', acc'', _, f2, f3, f4, f5, f6, f7, f8, f9, f10, f11⟩ :=
+    C06_roundtrip ext hext (newConfig (Validate.build ext cfg)) icfg' acc' hbr1
+  obtain ⟨_, hb''⟩ := (accepted_iff ext _ icfg'').mp acc''
+  refine ⟨icfg', icfg'', acc', acc'', ?_⟩
+  apply Config.ext' _ _ ?_ f2 f3 f4 f5 f6 f7 f8 f9 f10 f11
+  subst hb' hb''
+  have ho2 : (newConfig (Validate.build ext (newConfig (Validate.build ext cfg)))).origins =
+      originsOf ext cfg.credentialed (Validate.pnaAny cfg) cfg.tolInsecure cfg.tolPSL
+        (originsOf ext cfg.credentialed (Validate.pnaAny cfg) cfg.tolInsecure cfg.tolPSL cfg.origins) := rfl
+  have ho3 : (newConfig (Validate.build ext (newConfig (Validate.build ext (newConfig (Validate.build ext cfg)))))).origins =
+      originsOf ext cfg.credentialed (Validate.pnaAny cfg) cfg.tolInsecure cfg.tolPSL
+        (originsOf ext cfg.credentialed (Validate.pnaAny cfg) cfg.tolInsecure cfg.tolPSL
+          (originsOf ext cfg.credentialed (Validate.pnaAny cfg) cfg.tolInsecure cfg.tolPSL cfg.origins)) := rfl
+  rw [ho3, ho2]
+  exact originsOf_stable ext hext _ _ _ _ _ hA
+
+/-! A test (evaluated by the compiler, not a theorem): one round trip can be needed, and is enough.
+Listing the narrower pattern first keeps both in the tree; `Elems` sorts the wildcard first, so the
+rebuilt tree drops the narrower one; from then on nothing changes. -/
+section
+open TreeRT
+def extS : Ext := { idnaXn := fun _ => true, isETLD := fun _ => false, ip6 := fun _ => none }
+def rawsS : List Bytes := [Spec.b "https://b.a.com", Spec.b "https://*.a.com"]
+#guard originsOf extS false false false false rawsS == [Spec.b "https://*.a.com", Spec.b "https://b.a.com"]
+#guard originsOf extS false false false false (originsOf extS false false false false rawsS) == [Spec.b "https://*.a.com"]
+#guard originsOf extS false false false false (originsOf extS false false false false (originsOf extS false false false false rawsS)) == [Spec.b "https://*.a.com"]
+end
+
 /-- Non-vacuity of the bracket hypothesis: it holds for ordinary and IPv6 patterns, and is what a
 bracketed IPv4 literal violates. -/
 example : ((91 : Nat) ∈ Spec.b "https://example.com:8080") = False := by decide
@@ -264,5 +345,6 @@ example : (58 : Nat) ∈ Spec.b "2001:db8::1" := by decide
 #print axioms C06_status
 #print axioms C06_render_ipv6
 #print axioms C06_roundtrip
+#print axioms C06_stable
 
 end Cors
